@@ -16,26 +16,26 @@ var intrinsicTable = map[string]intrinsicFn{}
 func init() {
 	for k, v := range map[string]intrinsicFn{
 		// ---- harness API
-		zzsymPath + ".Bool":      zzBool,
-		zzsymPath + ".U8":        func(fr *frame, a []value) value { return zzInt(fr, a, 8) },
-		zzsymPath + ".U16":       func(fr *frame, a []value) value { return zzInt(fr, a, 16) },
-		zzsymPath + ".U32":       func(fr *frame, a []value) value { return zzInt(fr, a, 32) },
-		zzsymPath + ".U64":       func(fr *frame, a []value) value { return zzInt(fr, a, 64) },
-		zzsymPath + ".I8":        func(fr *frame, a []value) value { return zzInt(fr, a, 8) },
-		zzsymPath + ".I16":       func(fr *frame, a []value) value { return zzInt(fr, a, 16) },
-		zzsymPath + ".I32":       func(fr *frame, a []value) value { return zzInt(fr, a, 32) },
-		zzsymPath + ".I64":       func(fr *frame, a []value) value { return zzInt(fr, a, 64) },
-		zzsymPath + ".Int":       func(fr *frame, a []value) value { return zzInt(fr, a, 64) },
-		zzsymPath + ".Bytes":     zzBytes,
-		zzsymPath + ".BytesUpTo": zzBytesUpTo,
-		zzsymPath + ".Assume":    zzAssume,
-		zzsymPath + ".Assert":    zzAssert,
-		zzsymPath + ".Cover":     zzCover,
-		zzsymPath + ".Param":     zzParam,
-		zzsymPath + ".Choose":    zzChoose,
-		zzsymPath + ".Symbolic":  func(fr *frame, a []value) value { return fr.in.ctx.tt },
-		zzsymPath + ".Note":      func(fr *frame, a []value) value { return nil },
-		zzsymPath + ".Event":     zzEvent,
+		zzsymPath + ".Bool":       zzBool,
+		zzsymPath + ".U8":         func(fr *frame, a []value) value { return zzInt(fr, a, 8) },
+		zzsymPath + ".U16":        func(fr *frame, a []value) value { return zzInt(fr, a, 16) },
+		zzsymPath + ".U32":        func(fr *frame, a []value) value { return zzInt(fr, a, 32) },
+		zzsymPath + ".U64":        func(fr *frame, a []value) value { return zzInt(fr, a, 64) },
+		zzsymPath + ".I8":         func(fr *frame, a []value) value { return zzInt(fr, a, 8) },
+		zzsymPath + ".I16":        func(fr *frame, a []value) value { return zzInt(fr, a, 16) },
+		zzsymPath + ".I32":        func(fr *frame, a []value) value { return zzInt(fr, a, 32) },
+		zzsymPath + ".I64":        func(fr *frame, a []value) value { return zzInt(fr, a, 64) },
+		zzsymPath + ".Int":        func(fr *frame, a []value) value { return zzInt(fr, a, 64) },
+		zzsymPath + ".Bytes":      zzBytes,
+		zzsymPath + ".BytesUpTo":  zzBytesUpTo,
+		zzsymPath + ".Assume":     zzAssume,
+		zzsymPath + ".Assert":     zzAssert,
+		zzsymPath + ".Cover":      zzCover,
+		zzsymPath + ".Param":      zzParam,
+		zzsymPath + ".Choose":     zzChoose,
+		zzsymPath + ".Symbolic":   func(fr *frame, a []value) value { return fr.in.ctx.tt },
+		zzsymPath + ".Note":       func(fr *frame, a []value) value { return nil },
+		zzsymPath + ".Event":      zzEvent,
 		zzsymPath + ".Concretize": zzConcretize,
 		zzsymPath + ".Ite64": func(fr *frame, a []value) value {
 			return fr.in.ctx.Ite(a[0].(*Term), a[1].(*Term), a[2].(*Term))
@@ -66,29 +66,29 @@ func init() {
 		"bytes.Index":                  concreteIndex,
 
 		// ---- hashes
-		"crypto/sha256.Sum256": func(fr *frame, a []value) value { return hashSum(fr, "sha256", 32, a[0].(SliceV)) },
-		"crypto/sha512.Sum512": func(fr *frame, a []value) value { return hashSum(fr, "sha512", 64, a[0].(SliceV)) },
-		"crypto/sha256.New":    func(fr *frame, a []value) value { return newHashObj(fr, "sha256", 32, 64) },
-		"crypto/sha512.New":    func(fr *frame, a []value) value { return newHashObj(fr, "sha512", 64, 128) },
-		"golang.org/x/crypto/ripemd160.New": func(fr *frame, a []value) value { return newHashObj(fr, "ripemd160", 20, 64) },
+		"crypto/sha256.Sum256":                        func(fr *frame, a []value) value { return hashSum(fr, "sha256", 32, a[0].(SliceV)) },
+		"crypto/sha512.Sum512":                        func(fr *frame, a []value) value { return hashSum(fr, "sha512", 64, a[0].(SliceV)) },
+		"crypto/sha256.New":                           func(fr *frame, a []value) value { return newHashObj(fr, "sha256", 32, 64) },
+		"crypto/sha512.New":                           func(fr *frame, a []value) value { return newHashObj(fr, "sha512", 64, 128) },
+		"golang.org/x/crypto/ripemd160.New":           func(fr *frame, a []value) value { return newHashObj(fr, "ripemd160", 20, 64) },
 		"golang.org/x/crypto/sha3.NewLegacyKeccak256": func(fr *frame, a []value) value { return newHashObj(fr, "keccak256", 32, 136) },
 		"golang.org/x/crypto/sha3.New256":             func(fr *frame, a []value) value { return newHashObj(fr, "sha3_256", 32, 136) },
-		"golang.org/x/crypto/sha3.Sum256": func(fr *frame, a []value) value { return hashSum(fr, "sha3_256", 32, a[0].(SliceV)) },
+		"golang.org/x/crypto/sha3.Sum256":             func(fr *frame, a []value) value { return hashSum(fr, "sha3_256", 32, a[0].(SliceV)) },
 
 		// ---- sync
-		"(*sync.Mutex).Lock":      mutexOp(+1, true),
-		"(*sync.Mutex).Unlock":    mutexOp(-1, true),
-		"(*sync.Mutex).TryLock":   func(fr *frame, a []value) value { mutexOp(+1, true)(fr, a); return fr.in.ctx.tt },
-		"(*sync.RWMutex).Lock":    mutexOp(+1, true),
-		"(*sync.RWMutex).Unlock":  mutexOp(-1, true),
-		"(*sync.RWMutex).RLock":   mutexOp(+1, false),
-		"(*sync.RWMutex).RUnlock": mutexOp(-1, false),
-		"(*sync.WaitGroup).Add":   noop,
-		"(*sync.WaitGroup).Done":  noop,
-		"(*sync.WaitGroup).Wait":  noop,
-		"(*sync.Once).Do":         onceDo,
-		"(*sync.Pool).Get":        poolGet,
-		"(*sync.Pool).Put":        noop,
+		"(*sync.Mutex).Lock":               mutexOp(+1, true),
+		"(*sync.Mutex).Unlock":             mutexOp(-1, true),
+		"(*sync.Mutex).TryLock":            func(fr *frame, a []value) value { mutexOp(+1, true)(fr, a); return fr.in.ctx.tt },
+		"(*sync.RWMutex).Lock":             mutexOp(+1, true),
+		"(*sync.RWMutex).Unlock":           mutexOp(-1, true),
+		"(*sync.RWMutex).RLock":            mutexOp(+1, false),
+		"(*sync.RWMutex).RUnlock":          mutexOp(-1, false),
+		"(*sync.WaitGroup).Add":            noop,
+		"(*sync.WaitGroup).Done":           noop,
+		"(*sync.WaitGroup).Wait":           noop,
+		"(*sync.Once).Do":                  onceDo,
+		"(*sync.Pool).Get":                 poolGet,
+		"(*sync.Pool).Put":                 noop,
 		"sync.runtime_registerPoolCleanup": noop,
 		"sync.runtime_notifyListCheck":     noop,
 
